@@ -159,3 +159,65 @@ Theorem C08_serve_meets_property : forall d registered rp codes lines head auth 
                (obs_of (serve d registered (mkroute rp true codes) specs head auth dt) tag) = true.
 Proof. exact serve_meets_property_any_header. Qed.
 Print Assumptions C08_serve_meets_property.
+
+(* ---- security requirements with several alternatives and several schemes per alternative ---- *)
+(* the pipeline behind any requirement: an admitted request goes on to validation and the handler, a refused one is
+   answered with the last error met (401 when none); the realm marker every later error answer turns into a challenge
+   is there exactly when the basic scheme was consulted in an examined alternative and did not accept - wherever the
+   basic scheme stands among the alternatives and inside its alternative, whatever is examined afterwards *)
+Theorem C08_security_alternatives : forall d registered rt specs head s result,
+  serve_sec d registered rt specs head s result =
+  if sec_admitted s
+  then serve_validated d registered rt specs head (sec_challenge_realm s) result
+  else serve_respond d registered rt specs head None (sec_challenge_realm s) (DError (sec_refusal_code s)).
+Proof. exact serve_sec_eq. Qed.
+Print Assumptions C08_security_alternatives.
+
+Theorem C08_challenge_wherever_basic_stands : forall d registered rt specs head s result,
+  sec_admitted s = false ->
+  existsb (basic_consulted_in s) (examined s (sec_alts s)) = true -> sec_attempt s <> GoodCreds ->
+  exists r, serve_sec d registered rt specs head s result = Responded r /\
+            o_www r = Some (challenge (effective_realm (sec_realm s))) /\
+            o_error r = Some (sec_refusal_code s) /\ o_producer r = None.
+Proof. exact sec_refused_challenge. Qed.
+Print Assumptions C08_challenge_wherever_basic_stands.
+
+Theorem C08_no_challenge_without_failed_attempt : forall d registered rt specs head s result r,
+  sec_challenge_realm s = [] ->
+  serve_sec d registered rt specs head s result = Responded r -> o_www r = None.
+Proof. exact sec_no_attempt_no_challenge. Qed.
+Print Assumptions C08_no_challenge_without_failed_attempt.
+
+(* the requirement with the basic scheme as its only alternative (and no requirement) are the earlier cases *)
+Theorem C08_single_basic_requirement : forall d registered rt specs head a result,
+  serve_sec d registered rt specs head (sec_of_auth a) result = serve d registered rt specs head a result.
+Proof. exact serve_sec_single_basic. Qed.
+Print Assumptions C08_single_basic_requirement.
+
+(* the property predicate of the check, for every requirement *)
+Theorem C08_serve_sec_meets_property : forall d registered rp codes specs head s dt tag,
+  Forall spec_ok specs -> mem_bytes [] registered = false -> ~ In [] rp -> (In d rp \/ normalize_offer d = d) ->
+  sec_prop d registered rp codes specs head s dt tag (sec_admitted s && acceptable specs rp)
+           (obs_of (serve_sec d registered (mkroute rp true codes) specs head s dt) tag) = true.
+Proof. exact serve_sec_meets_property. Qed.
+Print Assumptions C08_serve_sec_meets_property.
+
+(* ---- several requests answered by one Context: every answer is the answer of the single request,
+   whatever was answered before ---- *)
+Theorem C08_history_stateless : forall d registered qs n q,
+  nth_error qs n = Some q -> nth_error (serve_history d registered qs) n = Some (serve_req d registered q).
+Proof. exact history_stateless. Qed.
+Print Assumptions C08_history_stateless.
+
+Theorem C08_history_prefix_irrelevant : forall d registered pre pre' q,
+  nth_error (serve_history d registered (pre ++ [q])) (length pre) =
+  nth_error (serve_history d registered (pre' ++ [q])) (length pre').
+Proof. exact history_prefix_irrelevant. Qed.
+Print Assumptions C08_history_prefix_irrelevant.
+
+Theorem C08_history_meets_property : forall d registered qs tags,
+  mem_bytes [] registered = false -> Forall (hreq_ok d) qs -> length tags = length qs ->
+  Forall2 (fun qt o => req_prop d registered (fst qt) (snd qt) (req_runs (fst qt)) (obs_of o (snd qt)) = true)
+          (combine qs tags) (serve_history d registered qs).
+Proof. exact history_meets_property. Qed.
+Print Assumptions C08_history_meets_property.
